@@ -2,7 +2,9 @@
 
 E2 (explicit histories): ALL sequences of up to 2 (thorough 3) command templates (pipelines of 1..4 stages, every
 redirection form on externals and builtins, builtins alone and in pipelines, command substitutions, here-strings,
-failing / not-found / unopenable-target commands, a background job, source, arithmetic) are run in one real shell
+failing / not-found / unopenable-target commands, a background job, source, arithmetic), every builtin with every
+sequence of up to two output redirections, and every captured command `$(cmd redirections)` with every sequence of up
+to two redirections (alone and as last pipeline stage) are run in one real shell
 process with a probe after every command; the probe (a helper started by the shell) records the shell's own
 descriptor table from /proc/<ppid>/fd and every helper records the descriptors it was started with.
 E4 (fault enumeration): EVERY soft RLIMIT_NOFILE value 4..40 x pipeline templates of 1..6 stages (plain, with
@@ -133,6 +135,25 @@ def run(rep, tier):
         for n in (1, 2):
             for rs in itertools.product(OUTR, repeat=n):
                 seqs.append(('%s %s' % (b, ' '.join(rs)), 'vh-argv after'))
+    # output capture combined with redirections: an external program inside $(...) / backquotes (alone and as the last
+    # stage of a pipeline) with every sequence of up to two redirections, followed by a further command
+    INR = OUTR + ['< g', '<<< w']
+    ncap = 0
+    capclass = {}
+
+    def rkind(r):
+        return {'>': 'out-file', '>>': 'out-file', '2>': 'err-file', '2>>': 'err-file', '2>&1': 'err-dup', '1>&2': 'out-dup', '<': 'in-file', '<<<': 'here-string'}[r.split()[0]]
+    for n in (1, 2):
+        for rs in itertools.product(INR, repeat=n):
+            if sum(1 for r in rs if r.startswith('<')) > 1:
+                continue
+            r = ' '.join(rs)
+            for inner in ('vh-io t %s' % r, 'vh-emit 0 | vh-io t %s' % r):
+                forms = ['vh-argv $(%s)', 'RV=`%s`'] if n == 1 or tier == 'thorough' else ['vh-argv $(%s)']
+                for form in forms:
+                    seqs.append((form % inner, 'vh-argv after'))
+                    capclass[form % inner] = 'captured-%s:%s' % ('pipeline' if '|' in inner else 'command', '+'.join(sorted(set(rkind(x) for x in rs))))
+                    ncap += 1
     states = set()
     for seq, line, obs in common.pmap(run_seq, seqs, chunk=8):
         rep.evaluations += 1
@@ -167,6 +188,8 @@ def run(rep, tier):
             if dev == 'child-inherited-extra-fd':
                 # class = the template during which the child was started
                 cls = next((t for t in seq if any(str(a) in t for a in (obs['bad_children'][0][1] or ['?'])[:1])), seq[0] if seq else '')
+            if seq and seq[0] in capclass:
+                cls = capclass[seq[0]]
             rep.violation('%s:%s' % (dev, cls), {'line': line, 'sequence': seq}, 'shell fds unchanged; children start with 0,1,2 only', detail,
                           repro='cicada -c %s' % common.shquote(line))
     rep.states = len(states)
